@@ -94,3 +94,17 @@ func ctz5(p uint8) int {
 	}
 	return 5
 }
+
+// VerifUndefined (C11): each of the 11 undefined opcodes stops the emulator deliberately (os.Exit) and never
+// returns to the frame loop
+func VerifUndefined() {
+	op := uint8(vCfg("op"))
+	vm := newVerifMachine()
+	vm.havocAtBoundary()
+	pending := vm.intr.ReadIE()&vm.intr.ReadIF()&0x1f != 0
+	vAssume(!(vm.imeAtBoundary() && pending))
+	vm.placeOpcode(op, false)
+	vAllowExit()
+	vm.runToBoundary(2)
+	vAssert("undefined-opcode-does-not-continue", false)
+}
